@@ -43,7 +43,7 @@ FIXED = {
     "yin-ext-substmt-text": "a7f915d", "yin-ext-substmt-unquoted": "de4b88c", "yin-ext-substmt-index": "5e04ad1",
     "yin-xmlns-unescaped": "db375d0", "yin-submodule-xmlns-prefix": "36df73d", "yin-ext-arg-element-blank": "932327e",
     "amend-dup-ext-parent-stmt": "7099641", "tree-ext-first-record": "dc2a73a", "yin-unres-exts-realloc": "bb5ffe8",
-    "ext-nested-dropped": "347838c",
+    "ext-nested-dropped": "347838c", "bits-position-max-bitmap": "2baac78",
 }
 
 
@@ -414,12 +414,13 @@ DEVIATES = {
             ("add", [("max-elements", "unbounded")]), ("add", [("min-elements", "2"), ("max-elements", "4")]),
             ("add", [("config", "false")]), ("replace", [("type", "TYPE")])],
     "ll3": [("replace", [("min-elements", "0")]), ("replace", [("max-elements", "unbounded")]),
+            ("replace", [("min-elements", "4294967295"), ("max-elements", "4294967295")]), ("replace", [("max-elements", "4294967294")]),
             ("replace", [("min-elements", "2"), ("max-elements", "2")])],
     "tl": [("add", [("unique", "d e")]), ("add", [("unique", "d"), ("unique", "e")]), ("delete", [("unique", "a")]),
            ("delete", [("unique", "b c")]), ("delete", [("unique", "a"), ("unique", "b c")]),
            ("add", [("min-elements", "1"), ("max-elements", "3")]), ("add", [("max-elements", "unbounded")]),
            ("add", [("must", "XPATH")]), ("add", [("config", "false")])],
-    "tl2": [("replace", [("max-elements", "unbounded")]), ("replace", [("max-elements", "10")]), ("add", [("min-elements", "1")])],
+    "tl2": [("replace", [("max-elements", "4294967295")]), ("add", [("min-elements", "3")]), ("replace", [("max-elements", "unbounded")]), ("replace", [("max-elements", "10")]), ("add", [("min-elements", "1")])],
     "inner": [("not-supported", []), ("add", [("must", "XPATH")]), ("add", [("config", "false")])],
     "inner2": [("delete", [("must", "x")]), ("add", [("must", "XPATH")])],
     "tch": [("add", [("default", "ca")]), ("add", [("mandatory", "true")]), ("add", [("config", "false")])],
@@ -440,6 +441,46 @@ AUG_TARGETS = [("/t:tc", "container", True), ("/t:tc/t:inner", "container", True
                ("/t:trpc/t:output", "output", None), ("/t:tn", "notification", None), ("/t:tc2/t:act/t:input", "input", None),
                ("/t:tc2/t:nn", "notification", None), ("/t:tc2", "container", True)]
 
+INT_LIM = {"int8": (-2 ** 7, 2 ** 7 - 1), "int16": (-2 ** 15, 2 ** 15 - 1), "int32": (-2 ** 31, 2 ** 31 - 1), "int64": (-2 ** 63, 2 ** 63 - 1),
+           "uint8": (0, 2 ** 8 - 1), "uint16": (0, 2 ** 16 - 1), "uint32": (0, 2 ** 32 - 1), "uint64": (0, 2 ** 64 - 1)}
+
+
+def boundary_points(lo, hi):
+    """type minimum, minimum + 1, -1, 0, 1, maximum - 1, maximum (those inside the type)"""
+    return sorted({v for v in (lo, lo + 1, -1, 0, 1, hi - 1, hi) if lo <= v <= hi})
+
+
+def boundary_range(rng, lo, hi, fmt=str):
+    """a range / length argument made of boundary values, with the min / max keywords now and then -> (text, values)"""
+    pts = boundary_points(lo, hi)
+    pick = sorted(rng.sample(pts, rng.randrange(1, len(pts) + 1)))
+    parts, vals, i = [], [], 0
+    word = lambda v: "min" if v == lo and rng.random() < 0.4 else "max" if v == hi and rng.random() < 0.4 else fmt(v)   # noqa: E731
+    while i < len(pick):
+        if i + 1 < len(pick) and rng.random() < 0.5:
+            parts.append(word(pick[i]) + rng.choice(["..", " .. "]) + word(pick[i + 1]))
+            vals += [fmt(pick[i]), fmt(pick[i + 1])]
+            i += 2
+        else:
+            parts.append(word(pick[i]))
+            vals.append(fmt(pick[i]))
+            i += 1
+    return rng.choice([" | ", "|", " |\n "]).join(parts), vals
+
+
+def dec_fmt(fd):
+    def f(v):
+        a = abs(v)
+        return "%s%d.%0*d" % ("-" if v < 0 else "", a // 10 ** fd, fd, a % 10 ** fd)
+    return f
+
+
+ENUM_BOUNDS = [-2 ** 31, -2 ** 31 + 1, -1, 0, 1, 2 ** 31 - 2, 2 ** 31 - 1]
+BIT_BOUNDS = [0, 1, 2 ** 32 - 2, 2 ** 32 - 1]
+ELEM_BOUNDS = ["0", "1", "4294967294", "4294967295"]
+# revision dates at calendar limits (what lysp_check_date accepts)
+DATE_BOUNDS = ["1970-01-01", "9999-12-31", "2000-02-29", "1900-02-28", "2038-01-19", "0001-01-01"]
+
 INTS = {"int8": True, "int16": True, "int32": True, "int64": True, "uint8": False, "uint16": False, "uint32": False,
         "uint64": False}
 U_RANGES = [("1..10", ["1", "5", "10"]), ("0 | 2..4 | 100..max", ["0", "3", "100"]), ("min..5", ["0", "5"]), ("7", ["7"]),
@@ -447,7 +488,8 @@ U_RANGES = [("1..10", ["1", "5", "10"]), ("0 | 2..4 | 100..max", ["0", "3", "100
 S_RANGES = [("-10..10", ["-10", "0", "7"]), ("min..-1 | 1..max", ["-1", "1"]), ("0..max", ["0", "9"]),
             ("-5 | 5", ["-5", "5"])]
 D_RANGES = [("1.5..2.5", ["1.5", "2.0"]), ("-1.0..1.0 | 3.1", ["0.5", "3.1"]), ("min..0.0", ["-0.5", "0.0"])]
-LENGTHS = [("1..10", 1, 10), ("0 | 2..max", 2, 60), ("min..5", 0, 5), ("3", 3, 3), ("0..4|6..20", 6, 20)]
+LENGTHS = [("0 | 18446744073709551615", 0, 0), ("min..1 | 18446744073709551614..max", 0, 1), ("min..max", 0, 10 ** 6),
+           ("0..18446744073709551615", 0, 10 ** 6), ("1..10", 1, 10), ("0 | 2..max", 2, 60), ("min..5", 0, 5), ("3", 3, 3), ("0..4|6..20", 6, 20)]
 PATTERNS = [("", [""]), ("[a-z]+", ["abc", "x"]), ("[0-9a-fA-F]*", ["0aF", ""]), ("\\d{1,3}", ["12", "7"]), ("[^\"']*", ["ab", "q r"]),
             ("\\p{L}+", ["éx", "ab"]), ("a|b|c c", ["a", "c c"]), ("[a-c\\n\\t ]*", ["a b", "abc"]),
             ("x\\\\y|[/*{};+]+|//", ["//", "{};", "x\\y"]), ("(ab)*\\.\\*", [".*", "ab.*"]), ("'[^']*'|\"q\"", ["'a'", "\"q\""])]
@@ -624,17 +666,26 @@ class ModGen:
         b = rng.choice(list(INTS))
         t = S("type", b)
         vals = ["0", "1", "100"]
-        if self.ch(0.6):
+        r = rng.random()
+        if r < 0.35:
+            # the limits of the type and the values next to them
+            txt, vals = boundary_range(rng, *INT_LIM[b])
+            t.add(self.restr_subs(S("range", txt)))
+        elif r < 0.7:
             txt, vals = rng.choice(S_RANGES if INTS[b] and self.ch(0.7) else U_RANGES)
             t.add(self.restr_subs(S("range", txt)))
         return TI(t, vals, "int")
 
     def t_dec(self):
         rng = self.rng
-        fd = rng.choice([1, 2, 3, 9, 17])
+        fd = rng.choice([1, 2, 3, 9, 17, 18, 1, 18])
         t = S("type", "decimal64").add(S("fraction-digits", str(fd)))
-        vals = ["0.0", "1.5", "-2.5"]
-        if self.ch(0.5):
+        vals = ["0.0", "1.5", "-2.5"] if fd < 18 else ["0.0", "1.5"]
+        r = rng.random()
+        if r < 0.4:
+            txt, vals = boundary_range(rng, -2 ** 63, 2 ** 63 - 1, dec_fmt(fd))
+            t.add(self.restr_subs(S("range", txt)))
+        elif r < 0.7 and fd < 18:
             txt, vals = rng.choice(D_RANGES)
             t.add(self.restr_subs(S("range", txt)))
         rng.shuffle(t.subs)
@@ -672,7 +723,10 @@ class ModGen:
         names, vals = [], []
         mx = None                  # highest value so far: the next automatic value is mx + 1 (0 for the first enum)
         start = rng.choice([-5, 0, 0, 10])
-        for _ in range(rng.choice([1, 2, 3, 5])):
+        # boundary mode: every value explicit, from the limits of int32 and their neighbours, in any order (after
+        # 2147483647 no automatic value is possible)
+        bounds = rng.sample(ENUM_BOUNDS, len(ENUM_BOUNDS)) if self.ch(0.3) else None
+        for _ in range(rng.choice([1, 2, 3, 5]) if bounds is None else rng.choice([1, 2, 4, 7])):
             n = adv_text(rng, maxlen=25, nonempty=True, strip=True)
             if n in names or any(ord(c) < 32 for c in n) or "\\" in n:
                 continue
@@ -680,7 +734,10 @@ class ModGen:
             e = S("enum", n)
             auto = 0 if mx is None else mx + 1
             r = rng.random()
-            if r < 0.3:
+            if bounds is not None:
+                v = bounds.pop()
+                e.add(S("value", str(v)))
+            elif r < 0.3:
                 v = (start if mx is None else mx) + rng.choice([1, 2, 10])
                 e.add(S("value", str(v)))
             elif r < 0.45:
@@ -709,11 +766,14 @@ class ModGen:
         t = S("type", "bits")
         pos = rng.choice([0, 0, 3])
         names = []
+        bounds = rng.sample(BIT_BOUNDS, len(BIT_BOUNDS)) if self.ch(0.3) else None      # (as for enum values)
         for _ in range(rng.choice([1, 2, 4])):
             n = self.nm("b")
             b = S("bit", n)
             r = rng.random()
-            if r < 0.3:
+            if bounds is not None:
+                b.add(S("position", str(bounds.pop())))
+            elif r < 0.3:
                 pos += rng.choice([1, 5])
                 b.add(S("position", str(pos)))
             elif r < 0.45:
@@ -730,6 +790,11 @@ class ModGen:
                 names.append(n)
             t.add(b)
         vals = names[:1] + ([" ".join(names[:2])] if len(names) > 1 else []) + [""]
+        if any(int(b.val("position", "0")) >= 2 ** 32 - 2 for b in t.subs):
+            # no default value for such a type: the bitmap of a value is sized by the highest position + 1, which wraps
+            # to 0 for position 4294967295 (repaired by 2baac78, finding bits-position-max-bitmap) and is half a gigabyte
+            # for 4294967294 and above: too much memory for every generated module
+            vals = []
         return TI(t, vals, "bits")
 
     def t_idref(self):
@@ -759,7 +824,8 @@ class ModGen:
         if r < 0.7:
             t = S("type", "binary")
             if self.ch(0.5):
-                t.add(self.restr_subs(S("length", "0..10")))
+                t.add(self.restr_subs(S("length", self.rng.choice(["0..10", "min..max", "0..18446744073709551615",
+                                                                   "0..3 | 18446744073709551614..max"]))))
             return TI(t, ["", "YWJj"], "bin")
         if r < 0.85:
             t = S("type", "instance-identifier")
@@ -905,11 +971,15 @@ class ModGen:
                 ll.add(S("default", v))
             nd = len(vals)
         elif r < 0.5 and ctx.mand:
-            ll.add(S("min-elements", str(rng.choice([1, 2]))))
+            ll.add(S("min-elements", rng.choice(["1", "2", "1", "4294967294", "4294967295"])))
         elif r < 0.55:
             ll.add(S("min-elements", "0"))
         if self.ch(0.3):
-            ll.add(S("max-elements", rng.choice(["unbounded", "3", str(max(2, nd)), "4294967295"])))
+            mn = int(ll.val("min-elements", "0"))
+            mx = rng.choice(["unbounded", "3", str(max(2, nd)), "1", "4294967294", "4294967295"])
+            if mx != "unbounded" and int(mx) < max(mn, nd):
+                mx = "unbounded"
+            ll.add(S("max-elements", mx))
         if self.ch(0.25):
             ll.add(S("ordered-by", rng.choice(["user", "system"])))
         if self.ch(0.2):
@@ -1021,11 +1091,14 @@ class ModGen:
                     li.add(S("unique", rng.choice([" ", "  ", "\n  "]).join(u)))
         r = rng.random()
         if r < 0.2 and ctx.mand:
-            li.add(S("min-elements", str(rng.choice([1, 2]))))
+            li.add(S("min-elements", rng.choice(["1", "2", "1", "4294967294", "4294967295"])))
         elif r < 0.25:
             li.add(S("min-elements", "0"))
         if self.ch(0.3):
-            li.add(S("max-elements", rng.choice(["unbounded", "2", "10"])))
+            mx = rng.choice(["unbounded", "2", "10", "1", "4294967294", "4294967295"])
+            if mx != "unbounded" and int(mx) < int(li.val("min-elements", "0")):
+                mx = "unbounded"
+            li.add(S("max-elements", mx))
         if self.ch(0.25):
             li.add(S("ordered-by", rng.choice(["user", "system"])))
         self.when(li)
@@ -1256,11 +1329,11 @@ class ModGen:
                 opts["min-elements"] = lambda: [S("min-elements", str(rng.choice([1, 2])))]
             else:
                 opts["min-elements"] = lambda: [S("min-elements", "0")]
-            opts["max-elements"] = lambda: [S("max-elements", rng.choice(["unbounded", "unbounded", "5", "77"]))]
+            opts["max-elements"] = lambda: [S("max-elements", rng.choice(["unbounded", "unbounded", "5", "77", "4294967294", "4294967295"]))]
         elif n.kw == "list":
             if mand_ok:
                 opts["min-elements"] = lambda: [S("min-elements", str(rng.choice([0, 1, 2])))]
-            opts["max-elements"] = lambda: [S("max-elements", rng.choice(["unbounded", "unbounded", "5", "77"]))]
+            opts["max-elements"] = lambda: [S("max-elements", rng.choice(["unbounded", "unbounded", "5", "77", "4294967294", "4294967295"]))]
         elif n.kw == "container":
             opts["presence"] = lambda: [S("presence", adv_text(rng, maxlen=50))]
         elif n.kw == "choice":
@@ -1831,7 +1904,8 @@ class ModGen:
         revs = []
         dates = ["2021-02-03"] if not main else []
         # (the submodule's newest revision is the one the include names)
-        dates += rng.sample(["2019-12-31", "2022-06-16", "2000-01-01", "2024-02-29"] if main else ["2019-12-31", "2000-01-01"],
+        dates += rng.sample(["2019-12-31", "2022-06-16", "2000-01-01", "2024-02-29"] + DATE_BOUNDS if main else
+                            ["2019-12-31", "2000-01-01", "1970-01-01", "1900-02-28", "0001-01-01"],
                             rng.choice([0, 1, 2, 3]) if main else rng.choice([0, 1, 2]))
         rng.shuffle(dates)
         for d in dates:
@@ -2148,6 +2222,62 @@ class ModuleRT:
             out.append(line)
         return out
 
+    def v1_case(self, rng):
+        """a YANG 1 module (yang-version 1 or none at all) made of the statements with numeric arguments at their limits"""
+        mg = ModGen(rng, name="yv", submodule=False)
+        mg.P, mg.X = "v", "x"
+        t_str = mg.t_str
+
+        def t_str_v1():
+            ti = t_str()
+            ti.stmt.subs = [c for c in ti.stmt.subs if not c.find("modifier")]      # (modifier is YANG 1.1)
+            return ti
+        mg.t_str = t_str_v1
+        m = S("module", "yv")
+        hdr = [S("namespace", "urn:yv"), S("prefix", "v")]
+        if rng.random() < 0.7:
+            hdr.append(S("yang-version", "1"))
+        rng.shuffle(hdr)
+        m.subs += hdr
+        for d in rng.sample(DATE_BOUNDS, rng.randrange(0, 4)):
+            m.add(mg.docs(S("revision", d), 0.3))
+        body = []
+        for _ in range(rng.randrange(2, 6)):
+            ti = rng.choice([mg.t_int, mg.t_dec, mg.t_enum, mg.t_bits, mg.t_str])()
+            td = S("typedef", mg.nm("td")).add(ti.stmt)
+            v = ti.value(rng)
+            if v is not None and rng.random() < 0.5:
+                td.add(S("default", v))
+            body.append(td)
+            lf = S("leaf", mg.nm("l")).add(S("type", td.arg))
+            if rng.random() < 0.3:
+                ti2 = rng.choice([mg.t_int, mg.t_dec, mg.t_enum, mg.t_bits])()
+                lf = S("leaf", mg.nm("l")).add(ti2.stmt)
+                v = ti2.value(rng)
+                if v is not None and rng.random() < 0.5:
+                    lf.add(S("default", v))
+            body.append(lf)
+        for _ in range(rng.randrange(1, 4)):
+            ll = S(rng.choice(["leaf-list", "list"]), mg.nm("ll"))
+            if ll.kw == "list":
+                ll.add(S("key", "k"), S("leaf", "k").add(S("type", "string")))
+            else:
+                ll.add(rng.choice([mg.t_int, mg.t_dec, mg.t_str])().stmt)
+            mn = rng.choice([None, "0", "1", "4294967294", "4294967295"])
+            mx = rng.choice([None, "unbounded", "1", "4294967294", "4294967295"])
+            if mn is not None:
+                ll.add(S("min-elements", mn))
+            if mx is not None and (mx == "unbounded" or int(mx) >= int(mn or 0)):
+                ll.add(S("max-elements", mx))
+            rng.shuffle(ll.subs)
+            body.append(ll)
+        rng.shuffle(body)
+        m.subs += body
+        w = Writer(rng, noise=rng.choice([0.0, 0.1]))
+        line = case_line("yv", "-", [("yv", "y", w.text(m))], 4)
+        self.cases[line] = {"kind": "gen", "valid": True, "src": {"yv": norm_tree(canon_src(m))}}
+        return line
+
     def flatten_cases(self, rng):
         from props import comps_flatten as F
         # (only the generator of the structured set is used; a fresh PRNG so that work in progress on that slice cannot
@@ -2193,7 +2323,7 @@ class ModuleRT:
             out.append(line)
         return out
 
-    def regression_cases(self):
+    def regression_cases(self, tier="quick"):
         """the witness modules of the findings that were repaired: they go through all checks like any other module"""
         import json
         out = []
@@ -2204,6 +2334,8 @@ class ModuleRT:
         for k in known:
             rc = k.get("regression_case")
             if k.get("status") != "fixed" or not isinstance(rc, dict) or "corpus_line" not in rc:
+                continue
+            if rc.get("tier") == "thorough" and tier != "thorough":
                 continue
             fn, idx = rc["corpus_line"]
             lines = [l.rstrip("\n") for l in open(os.path.join(vlib.VERIF, fn)) if l.strip() and not l.startswith("#")]
@@ -2218,13 +2350,15 @@ class ModuleRT:
 
     def gen(self, rng, tier, scale=1.0):
         self.support = self.support_defs()
-        L = self.regression_cases()
+        L = self.regression_cases(tier)
         L += self.gen_module_cases(rng, "refine", nfeat=1)
         # every alternative of every deviation target once: round r takes the r-th alternative of each
         for r in range(max(len(v) for v in DEVIATES.values())):
             L += self.gen_module_cases(rng, ("deviation", r), nfeat=1)
         for _ in range(self.n(tier, 300, 4000, scale)):
             L += self.gen_module_cases(rng)
+        for _ in range(self.n(tier, 25, 600, scale)):
+            L.append(self.v1_case(rng))
         for _ in range(self.n(tier, 6, 200, scale)):
             L += self.flatten_cases(rng)
         for _ in range(self.n(tier, 8, 300, scale)):
